@@ -4,6 +4,7 @@ package c14
 
 import (
 	"fmt"
+	"github.com/paulmach/orb/verifrt"
 	"math"
 	"sort"
 	"strings"
@@ -163,14 +164,26 @@ func checkMerged(in []maptile.Tile, zmax, min maptile.Zoom, out maptile.Set, str
 
 // drawSet draws a same-zoom tile set.
 func drawSet(t *core.T) (set maptile.Set, z maptile.Zoom, class string) {
+	return drawSetSized(t, false)
+}
+
+// drawSetSized: big forces a block of 32x32 or 64x64 tiles (hundreds to thousands of tiles).
+func drawSetSized(t *core.T, big bool) (set maptile.Set, z maptile.Zoom, class string) {
 	s := t.Src
-	switch s.Pick([]int{3, 2}, "setkind") {
+	kind := s.Pick([]int{3, 2}, "setkind")
+	if big {
+		kind = 0
+	}
+	switch kind {
 	case 0:
 		// block structured: inside one ancestor block, fill some sub-blocks completely, sprinkle the rest
 		z = maptile.Zoom(s.Range(1, 12, "zoom"))
 		depth := s.Range(1, 4, "depth") // block is 2^depth x 2^depth tiles
-		if s.Chance(1, 30, "bigblock") {
+		if s.Chance(1, 30, "bigblock") || big {
 			depth = 5 + s.Intn(2, "d56") // up to 64x64 = 4096 tiles, six merge levels
+			if big && z < maptile.Zoom(depth) {
+				z = maptile.Zoom(depth + s.Intn(4, "zup"))
+			}
 		}
 		if maptile.Zoom(depth) > z {
 			depth = int(z)
@@ -238,6 +251,37 @@ func RunMerge(t *core.T) {
 	}
 	t.Logf("%d tiles at zoom %d (%s), min %d, partial=%v count=%d; first tiles %v", len(in), z, class, min, partial, count, head(in, 6))
 	instr := props.Variant == "instr"
+	prior := s.Chance(1, 4, "prior")
+	if instr {
+		// whether a sync.Pool hands back a pooled object is a choice of the run, not of the Go runtime
+		verifrt.ResetPools()
+		verifrt.PoolHook = func(n int) bool { return !s.Chance(1, 4, "pool-fresh") }
+		defer func() { verifrt.PoolHook = nil }()
+	}
+	if prior {
+		// history: an earlier merge of an unrelated set in the same process (as large as this
+		// one when this one is large) must leave nothing behind that the next call can see
+		s.Begin("prior")
+		pset, pz, _ := drawSetSized(t, len(in) >= 200)
+		pin := sortedTiles(pset, true)
+		pmin := maptile.Zoom(0)
+		if pz > 0 {
+			pmin = pz - maptile.Zoom(s.Pick([]int{1, 2, 2, 2, 2, 2, 2}, "pmindist"))
+			if pmin > pz {
+				pmin = 0
+			}
+		}
+		s.End()
+		var pout maptile.Set
+		if t.Guard("tilecover.MergeUp", func() { pout = tilecover.MergeUp(pset, pmin) }) {
+			return
+		}
+		t.Logf("prior merge: %d tiles at zoom %d to min %d -> %d tiles", len(pin), pz, pmin, len(pout))
+		if msg := checkMerged(pin, pz, pmin, pout, true); msg != "" {
+			t.Violate("merge-invariant", "tilecover.MergeUp", "", "MergeUp of %d zoom-%d tiles to min %d: %s\n  input: %v", len(pin), pz, pmin, msg, head(pin, 40))
+			return
+		}
+	}
 	nb := 2 + s.Intn(3, "behaviours")
 	var first []maptile.Tile
 	var firstDesc string
@@ -418,8 +462,18 @@ func star(s *core.Source, c pt, rmin, rmax float64, nv int, thin bool) []pt {
 	return append(out, out[0])
 }
 
+// emptyGeoms: geometries without a single vertex; their cover is no tile at all.
+// (A polygon holding an empty ring is left out: tilecover indexes ring[0] - outside what C14 states.)
+var emptyGeoms = []orb.Geometry{orb.LineString{}, orb.MultiLineString{}, orb.MultiLineString{orb.LineString{}}, orb.Polygon{}, orb.MultiPoint{},
+	orb.Ring{}, orb.MultiPolygon{}, orb.MultiPolygon{orb.Polygon{}}, orb.Collection{}, orb.Collection{orb.Collection{}, orb.LineString{}}, orb.LineString(nil), orb.Polygon(nil)}
+
 func drawShape(s *core.Source, z maptile.Zoom, areaOnly bool) *shape {
 	sh := &shape{}
+	if !areaOnly && s.Chance(1, 50, "empty") {
+		sh.geom = emptyGeoms[s.Intn(len(emptyGeoms), "which")]
+		sh.class = fmt.Sprintf("empty/%T", sh.geom)
+		return sh
+	}
 	r, size := drawRadius(s, z)
 	c := drawCenter(s, z, r)
 	kinds := []int{1, 3, 4, 1}
@@ -571,11 +625,18 @@ func drawShape(s *core.Source, z maptile.Zoom, areaOnly bool) *shape {
 		a := drawShape(s, z, false)
 		b := drawShape(s, z, false)
 		for _, m := range []*shape{a, b} {
-			if _, ok := m.geom.(orb.Collection); ok {
-				m.geom = orb.Collection{} // keep nesting shallow
+			if _, ok := m.geom.(orb.Collection); ok && s.Bool("flatten") {
+				m.geom = orb.Collection{} // half of the nested collections are kept, half become empty ones
 			}
 		}
-		sh.geom = orb.Collection{a.geom, b.geom}
+		col := orb.Collection{a.geom, b.geom}
+		if s.Chance(1, 4, "emptymember") {
+			// a member without vertices, anywhere in the list
+			at := s.Intn(3, "at")
+			e := emptyGeoms[s.Intn(len(emptyGeoms), "which")]
+			col = append(col[:at], append(orb.Collection{e}, col[at:]...)...)
+		}
+		sh.geom = col
 	}
 	return sh
 }
@@ -602,13 +663,17 @@ func (sh *shape) parts(g orb.Geometry, z maptile.Zoom) {
 			sh.lines = append(sh.lines, fr(l))
 		}
 	case orb.Ring:
-		sh.rings = append(sh.rings, [][]pt{fr(x)})
+		if len(x) > 0 {
+			sh.rings = append(sh.rings, [][]pt{fr(x)})
+		}
 	case orb.Polygon:
 		var poly [][]pt
 		for _, r := range x {
 			poly = append(poly, fr(r))
 		}
-		sh.rings = append(sh.rings, poly)
+		if len(poly) > 0 {
+			sh.rings = append(sh.rings, poly)
+		}
 	case orb.MultiPolygon:
 		for _, p := range x {
 			sh.parts(p, z)
@@ -741,6 +806,23 @@ func RunCover(t *core.T) {
 		}
 		t.State(fmt.Sprintf("cover/%d/%s/%d", z, sh.class, bucket(len(tiles))))
 		checks := 0
+		vertices := len(sh.pts)
+		for _, l := range sh.lines {
+			vertices += len(l)
+		}
+		for _, poly := range sh.rings {
+			for _, r := range poly {
+				vertices += len(r)
+			}
+		}
+		if vertices == 0 {
+			// nothing to cover: no vertex anywhere
+			checks++
+			if len(tiles) != 0 {
+				t.Violate("cover-extra-tile", "tilecover.Geometry", "empty", "%s at zoom %d has no vertex at all, its cover holds %v", sh.class, z, head(tiles, 20))
+				return false
+			}
+		}
 
 		// points: the cover contains the point's tile
 		for _, p := range sh.pts {
